@@ -154,8 +154,9 @@ class EffectsQ:
 
 class ReopenQ(EffectsQ):
     """effects mode over the reopen and drop paths (memory.rs map_mut_in / map_in with their closures, unmount): obligations R1-R5 of C05"""
-    name, props = "effects_reopen_path", ["C05"]
+    name, props = "effects_reopen_path", ["C05", "C06", "C08"]
     module, native_flag, min_obligations = "mirsmt.reopen", "--reopen-check", 5
+    relevant = {"C06": ("R1",), "C08": ("R1",)}  # C06's crash model and C08's "reopened file" clause rest on the zeroing the real closure performs
 
     def bounds(self):
         return ("all paths of map_mut_in / map_in with their closures and of unmount (no loops in them); reserved <= 2^20; callees outside the crate opaque "
@@ -168,7 +169,7 @@ def select(pid, tier, only=None):
     out = []
     if pid == "C09" and (not only or only in EffectsQ.name):
         out.append(EffectsQ())
-    if pid == "C05" and (not only or only in ReopenQ.name):
+    if pid in ReopenQ.props and (not only or only in ReopenQ.name):
         out.append(ReopenQ())
     for q in families():
         if pid not in q.props:
@@ -569,7 +570,8 @@ def run_effects(q, pid, rc, scratch, logdir, known, out):
         out["samples"].append(sample)
         return
     out["evaluations"] += sum(o.get("paths", 0) for o in r["obligations"])
-    failed = [o for o in r["obligations"] if not o["holds"]]
+    rel = getattr(q, "relevant", {}).get(pid)
+    failed = [o for o in r["obligations"] if not o["holds"] and (rel is None or o["id"] in rel)]
     vac = [o["id"] for o in r["obligations"] if o.get("ok_paths", 0) == 0 or o.get("vacuous")]
     if not failed:
         if vac:
